@@ -981,7 +981,8 @@ impl SixtyCycleHour {
     let solar: SolarDay = self.solar_time.get_solar_day();
     let dong_zhi: SolarTerm = SolarTerm::from_index(solar.get_year(), 0);
     let xia_zhi: SolarTerm = dong_zhi.next(12);
-    let asc: bool = !solar.is_before(dong_zhi.get_julian_day().get_solar_day()) && solar.is_before(xia_zhi.get_julian_day().get_solar_day());
+    let dong_zhi2: SolarTerm = dong_zhi.next(24);
+    let asc: bool = (!solar.is_before(dong_zhi.get_julian_day().get_solar_day()) && solar.is_before(xia_zhi.get_julian_day().get_solar_day())) || !solar.is_before(dong_zhi2.get_julian_day().get_solar_day());
     let mut start: isize = [8, 5, 2][self.get_day().get_earth_branch().get_index() % 3];
     if asc {
       start = 8 - start;
